@@ -421,6 +421,37 @@ func runC14(c *Ctx) {
 				if prefixFound != nil {
 					noHeaderToken = anyFact(isTokenEmpty, factBool(vIs(prefixFound), false))
 				}
+				// (or, tested on the header itself: it does not start with the prefix, or is no longer than the prefix)
+				{
+					noPrefix := factBool(func(v ssa.Value) bool {
+						hp := asCall(v)
+						if hp == nil || calleeName(&hp.Call) != "strings.HasPrefix" || hp.Call.Args[0] != ssa.Value(h) {
+							return false
+						}
+						k, isK := constString(hp.Call.Args[1])
+						return isK && k == "Bearer "
+					}, false)
+					nothingAfterPrefix := func(cond ssa.Value, branch bool) bool {
+						cnd, b := stripNot(cond, branch)
+						bo, isBo := cnd.(*ssa.BinOp)
+						if !isBo {
+							return false
+						}
+						l, isLen := lenOf(bo.X)
+						k, isK := constInt(bo.Y)
+						if !isLen || l != ssa.Value(h) || !isK || k != int64(len("Bearer ")) {
+							return false
+						}
+						switch bo.Op {
+						case token.GTR:
+							return !b
+						case token.LEQ:
+							return b
+						}
+						return false
+					}
+					noHeaderToken = anyFact(noHeaderToken, noPrefix, nothingAfterPrefix)
+				}
 				c.obI("R14.3", q, "query-only-without-header-token", qk == "access_token" && guardedBy(q, h, noHeaderToken), "the access_token query parameter is read only when the header gave no token", "")
 				fk, _ := constString(fm.Call.Args[1])
 				isForm := func(cond ssa.Value, branch bool) bool {
@@ -500,6 +531,30 @@ func runC14(c *Ctx) {
 							continue
 						}
 						// this way of reaching the test skipped the query: it must carry a non-empty token
+						// (… shown by a test of the token itself, or by the header being LONGER than the prefix it starts with)
+						longerThanPrefix := func(cond ssa.Value, branch bool) bool {
+							cnd, b := stripNot(cond, branch)
+							bo, isBo := cnd.(*ssa.BinOp)
+							if !isBo {
+								return false
+							}
+							l, isLen := lenOf(bo.X)
+							k, isK := constInt(bo.Y)
+							if !isLen || l != ssa.Value(h) || !isK || k != int64(len("Bearer ")) {
+								return false
+							}
+							switch bo.Op {
+							case token.GTR:
+								return b
+							case token.LEQ:
+								return !b
+							}
+							return false
+						}
+						fromTrim, _ := allOrigins(e, oCall(-1, "strings.TrimPrefix"))
+						if fromTrim && edgeGuarded(phi.Block().Preds[i], phi.Block(), nil, longerThanPrefix) {
+							continue
+						}
 						if !edgeGuarded(phi.Block().Preds[i], phi.Block(), nil, factEqString(vIs(e), "", false)) {
 							okPre, whyPre = false, "the form body can be read although the query parameter was not tried (FormValue would then let the body pre-empt the query)"
 						}
@@ -717,13 +772,47 @@ func runC14(c *Ctx) {
 	for _, b := range callsIn(ch, "(*rt/client.request).buildHTTP") {
 		_, a := callArgs(b.Common())
 		auth := a[4]
-		okA, bad := allOrigins(auth, oFieldLoad("rt.ClientOperation", "AuthInfo", nil), func(o Origin) bool { _, ok := o.V.(*ssa.MakeClosure); return ok })
+		// (the operation's AuthInfo may reach the function as a parameter every caller fills with operation.AuthInfo)
+		var authParam *ssa.Parameter
+		if curProg != nil && curProg.ti != nil {
+			for pos, prm := range ch.Params {
+				if typeStr(prm.Type()) != "rt.ClientAuthInfoWriter" {
+					continue
+				}
+				sites := curProg.ti.callers[ch]
+				all := len(sites) > 0
+				for _, cs := range sites {
+					if pos >= len(cs.Common().Args) {
+						all = false
+						continue
+					}
+					if okS, _ := allOrigins(cs.Common().Args[pos], oFieldLoad("rt.ClientOperation", "AuthInfo", nil)); !okS {
+						all = false
+					}
+				}
+				if all {
+					authParam = prm
+				}
+			}
+		}
+		isOwnAuth := func(v ssa.Value) bool {
+			if vFieldLoadO("rt.ClientOperation", "AuthInfo")(v) {
+				return true
+			}
+			if authParam != nil {
+				okP, _ := allOrigins(v, oIsValue(authParam))
+				return okP
+			}
+			return false
+		}
+		okA, bad := allOrigins(auth, oFieldLoad("rt.ClientOperation", "AuthInfo", nil), func(o Origin) bool { _, ok := o.V.(*ssa.MakeClosure); return ok },
+			func(o Origin) bool { return authParam != nil && o.V == ssa.Value(authParam) })
 		why := "origin " + describeOrigin(bad)
 		if okA {
 			if phi, isPhi := auth.(*ssa.Phi); isPhi {
 				for i, e := range phi.Edges {
 					if okC, _ := allOrigins(e, func(o Origin) bool { _, ok := o.V.(*ssa.MakeClosure); return ok }); okC {
-						noOwn := factNil(vFieldLoadO("rt.ClientOperation", "AuthInfo"), true)
+						noOwn := factNil(isOwnAuth, true)
 						hasDef := factNil(vFieldLoadO(runtimeT, "DefaultAuthentication"), false)
 						if !edgeGuarded(phi.Block().Preds[i], phi.Block(), nil, noOwn) || !edgeGuarded(phi.Block().Preds[i], phi.Block(), nil, hasDef) {
 							okA, why = false, "the default-credential wrapper can be installed although the operation has its own AuthInfo"
@@ -734,7 +823,7 @@ func runC14(c *Ctx) {
 				okA, why = false, "the default-credential wrapper is installed unconditionally"
 			} else {
 				// the choice was moved into a helper: the wrapper is created only under both conditions
-				noOwn := factNil(vFieldLoadO("rt.ClientOperation", "AuthInfo"), true)
+				noOwn := factNil(isOwnAuth, true)
 				hasDef := factNil(vFieldLoadO(runtimeT, "DefaultAuthentication"), false)
 				for _, o := range originsOf(auth) {
 					mc, isMC := o.V.(*ssa.MakeClosure)
